@@ -33,7 +33,7 @@ mutual
 theorem ok_node {α} (tags : List Str) (proc : Proc α) (n : Node) (st : St) :
     ∀ i ∈ (runNode tags proc n st).1, Inv.ok proc i := by
   cases n with
-  | mk k ln code esc text ch =>
+  | mk k ln code esc off text ch =>
     have hk := ok_list tags proc ch St.clean
     cases k <;> simp [runNode, Kind.recurses, Inv.ok] <;> (try split) <;> simp_all [Inv.ok]
 theorem ok_list {α} (tags : List Str) (proc : Proc α) (ns : List Node) (st : St) :
@@ -68,18 +68,20 @@ theorem Site.parts_in_text (s : Site) : ∀ p ∈ s.parts, p <:+: s.text := by
   · simp only [h, if_false]
     simp only [List.mem_cons, List.mem_nil_iff, or_false] at hp
     rcases hp with rfl | rfl
-    · exact ⟨['('], [')', ',', ' ', '('] ++ s.filter ++ [',', ')'], by simp⟩
-    · exact ⟨'(' :: s.code ++ [')', ',', ' ', '('], [',', ')'], by simp⟩
+    · exact ⟨['('], [')', ',', ' ', '('] ++ List.replicate (s.filterOff - countNL s.code) '\n' ++ s.filter ++ [',', ')'],
+        by simp⟩
+    · exact ⟨'(' :: s.code ++ [')', ',', ' ', '('] ++ List.replicate (s.filterOff - countNL s.code) '\n', [',', ')'],
+        by simp⟩
 
-theorem selectCode_eq_text (k : Kind) (ln : Nat) (code esc : Str) (hid : Bool) :
-    selectCode k code esc = (Site.mk ln code (if k = .expr then esc else []) hid).text := by
+theorem selectCode_eq_text (k : Kind) (ln : Nat) (code esc : Str) (off : Nat) (hid : Bool) :
+    selectCode k code esc off = (Site.mk ln code (if k = .expr then esc else []) off hid).text := by
   unfold selectCode Site.text wrapExpr
   by_cases hk : k = .expr <;> by_cases he : esc = [] <;> simp [hk, he]
 
 mutual
 theorem hidden_node (n : Node) : (sitesNode true n).filter Site.visible = [] := by
   cases n with
-  | mk k ln code esc text ch =>
+  | mk k ln code esc off text ch =>
     simp only [sitesNode, Bool.true_or, List.filter_append, hidden_list ch, List.append_nil]
     split <;> simp [Site.visible]
 theorem hidden_list (ns : List Node) : (sitesList true ns).filter Site.visible = [] := by
@@ -92,10 +94,10 @@ mutual
 theorem handed_node {α} (tags : List Str) (proc : Proc α) (n : Node) (st : St) :
     (runNode tags proc n st).1.map Inv.key = ((sitesNode false n).filter Site.visible).map Site.key := by
   cases n with
-  | mk k ln code esc text ch =>
+  | mk k ln code esc off text ch =>
     have hk := handed_list tags proc ch St.clean
     have hh := hidden_list ch
-    have ht := selectCode_eq_text k ln code esc false
+    have ht := selectCode_eq_text k ln code esc off false
     cases k <;>
       simp [runNode, sitesNode, Kind.pythonBearing, Kind.recurses, Kind.container, Site.visible, Site.key, Inv.key,
         hh] <;>
@@ -118,13 +120,13 @@ theorem sites_from_nodes_node (hid : Bool) (n : Node) :
       m.kind.pythonBearing = true ∧ s.lineno = m.lineno ∧ s.code = m.code ∧
       (s.filter = [] ∨ (m.kind = .expr ∧ s.filter = m.esc)) := by
   cases n with
-  | mk k ln code esc text ch =>
+  | mk k ln code esc off text ch =>
     intro s hs
     simp only [sitesNode, List.mem_append] at hs
     rcases hs with hs | hs
     · by_cases hk : k.pythonBearing = true
       · simp only [hk, if_true, List.mem_singleton] at hs
-        refine ⟨.mk k ln code esc text ch, by simp [allNodesNode], ?_⟩
+        refine ⟨.mk k ln code esc off text ch, by simp [allNodesNode], ?_⟩
         subst hs
         by_cases he : k = .expr
         · subst he; simp [Node.kind, Node.lineno, Node.code, Node.esc, Kind.pythonBearing]
@@ -239,7 +241,7 @@ theorem commentStep_open (tags : List Str) (tc : List (Nat × Str)) (ln : Nat) (
 theorem runNode_comment {α} (tags) (proc : Proc α) (n : Node) (st : St) (h : n.kind = .comment) :
     runNode tags proc n st = ([], commentStep tags st n.lineno n.text) := by
   cases n with
-  | mk k ln code esc text ch =>
+  | mk k ln code esc off text ch =>
     simp only [Node.kind] at h; subst h
     simp [runNode, Node.lineno, Node.text]
 
@@ -247,7 +249,7 @@ theorem runNode_comment {α} (tags) (proc : Proc α) (n : Node) (st : St) (h : n
 theorem runNode_quiet {α} (tags) (proc : Proc α) (n : Node) (st : St)
     (h : n.kind = .text ∨ n.kind = .other) : runNode tags proc n st = ([], st) := by
   cases n with
-  | mk k ln code esc text ch =>
+  | mk k ln code esc off text ch =>
     simp only [Node.kind] at h
     rcases h with h | h <;> subst h <;> simp [runNode]
 
@@ -255,16 +257,16 @@ theorem runNode_quiet {α} (tags) (proc : Proc α) (n : Node) (st : St)
 theorem runNode_python {α} (tags) (proc : Proc α) (n : Node) (st : St) (h : n.kind.pythonBearing = true) :
     ∃ kids,
       runNode tags proc n st =
-        (⟨n.lineno, selectCode n.kind n.code n.esc, (pendingFor st.tc n.lineno).map (·.2),
-            proc (selectCode n.kind n.code n.esc) ((n.lineno : Int) - 1) ((pendingFor st.tc n.lineno).map (·.2))⟩ :: kids,
-         ⟨if (proc (selectCode n.kind n.code n.esc) ((n.lineno : Int) - 1)
+        (⟨n.lineno, selectCode n.kind n.code n.esc n.escOff, (pendingFor st.tc n.lineno).map (·.2),
+            proc (selectCode n.kind n.code n.esc n.escOff) ((n.lineno : Int) - 1) ((pendingFor st.tc n.lineno).map (·.2))⟩ :: kids,
+         ⟨if (proc (selectCode n.kind n.code n.esc n.escOff) ((n.lineno : Int) - 1)
               ((pendingFor st.tc n.lineno).map (·.2))).isEmpty
             then pendingFor st.tc n.lineno else [], false⟩) := by
   cases n with
-  | mk k ln code esc text ch =>
+  | mk k ln code esc off text ch =>
     simp only [Node.kind] at h
     cases k <;> simp [Kind.pythonBearing] at h <;>
-      simp [runNode, Node.lineno, Node.code, Node.esc, Node.kind, Kind.recurses]
+      simp [runNode, Node.lineno, Node.code, Node.esc, Node.escOff, Node.kind, Kind.recurses]
 
 /-- inside an open window: comments are collected, text and unknown tags are passed over -/
 theorem window_collects {α} (tags) (proc : Proc α) (more : List Node) (tc : List (Nat × Str))
@@ -358,21 +360,31 @@ theorem take_prefix_add {α} (a b t : List α) (k : Nat) (hk : k ≤ b.length) :
   rw [List.append_assoc, take_length_add_append, List.take_append_of_le_length hk]
 
 /-- a call at offset `j` of the expression's code is at offset `j + 1` of the wrapper, with as many newlines before it -/
-theorem wrap_take_code (c e : Str) (j : Nat) (hj : j ≤ c.length) :
-    countNL ((wrapExpr c e).take (j + 1)) = countNL (c.take j) := by
+theorem wrap_take_code (c e : Str) (off j : Nat) (hj : j ≤ c.length) :
+    countNL ((wrapExpr c e off).take (j + 1)) = countNL (c.take j) := by
   simp only [wrapExpr, List.cons_append, List.take_succ_cons, countNL_cons, List.append_assoc]
   rw [List.take_append, countNL_append]
   simp [Nat.sub_eq_zero_of_le hj]
 
-/-- a call at offset `k` of the filter list is at offset `|code| + 5 + k` of the wrapper; the newlines before it are
-    those of the code and those of the filter list before the call -/
-theorem wrap_take_filter (c e : Str) (k : Nat) (hk : k ≤ e.length) :
-    countNL ((wrapExpr c e).take (c.length + 5 + k)) = countNL c + countNL (e.take k) := by
-  have h := take_prefix_add ('(' :: c ++ [')', ',', ' ', '(']) e [',', ')'] k hk
-  have hl : ('(' :: c ++ [')', ',', ' ', '(']).length = c.length + 5 := by simp
+theorem countNL_replicate_nl (n : Nat) : countNL (List.replicate n '\n') = n := by
+  induction n with
+  | zero => rfl
+  | succ n ih => simp [List.replicate_succ, countNL_cons, ih]; omega
+
+/-- a call at offset `k` of the filter list is at offset `|code| + 5 + pad + k` of the wrapper; the newlines before it
+    are those of the code, the padding and those of the filter list before the call -/
+theorem wrap_take_filter (c e : Str) (off k : Nat) (hk : k ≤ e.length) :
+    countNL ((wrapExpr c e off).take (c.length + 5 + (off - countNL c) + k)) =
+      countNL c + (off - countNL c) + countNL (e.take k) := by
+  have h := take_prefix_add ('(' :: c ++ [')', ',', ' ', '('] ++ List.replicate (off - countNL c) '\n') e [',', ')'] k hk
+  have hl : ('(' :: c ++ [')', ',', ' ', '('] ++ List.replicate (off - countNL c) '\n').length
+      = c.length + 5 + (off - countNL c) := by simp; omega
   rw [hl] at h
-  have hw : wrapExpr c e = ('(' :: c ++ [')', ',', ' ', '(']) ++ e ++ [',', ')'] := by simp [wrapExpr]
+  have hw : wrapExpr c e off =
+      ('(' :: c ++ [')', ',', ' ', '('] ++ List.replicate (off - countNL c) '\n') ++ e ++ [',', ')'] := by
+    simp [wrapExpr]
   rw [hw, h]
-  simp [countNL_append, countNL_cons]
+  simp [countNL_append, countNL_cons, countNL_replicate_nl]
+  omega
 
 end MakoModel.Extract
